@@ -70,8 +70,12 @@ var jobTable = map[string]jobSet{
 			{Scenario: "bidi/N=2/k1=3/k2=3", Budgets: bs(B(1, 1), B(0, 3)), Split: 2},
 			{Scenario: "burst2/N=2/k=2", Budgets: bs(B(1, 1), B(0, 3)), Split: 2},
 			{Scenario: "burst2/N=1/k=2", Budgets: bs(B(0, 2)), Split: 1},
+			// a window above 128 (uint8 arithmetic on sequence numbers and in
+			// the syncer) with a wrap of the sequence space, one fault at
+			// every point
+			{Scenario: "uni/N=150/k=200", Budgets: bs(B(0, 1)), Split: 1},
 		},
-		quickS: 240, thoroughS: 1500,
+		quickS: 240, thoroughS: 1800,
 	},
 	"C12": {
 		quick: []Job{
@@ -169,8 +173,9 @@ func init() {
 			{Scenario: "pingwindow/N=2", Budgets: bs(B(2, 0)), Split: 2},
 			{Scenario: "pingwindow/N=1", Budgets: bs(B(1, 0)), Split: 1},
 			{Scenario: "pingwindow/N=20", Budgets: bs(B(0, 0))},
+			{Scenario: "uni/N=200/k=260/win", Budgets: bs(B(0, 1)), Split: 1},
 		},
-		quickS: 240, thoroughS: 1200,
+		quickS: 240, thoroughS: 1500,
 	}
 }
 
